@@ -6,6 +6,7 @@ pub mod c15;
 pub mod c16;
 pub mod c17;
 pub mod c18;
+pub mod c19;
 pub mod c20;
 pub mod c21;
 pub mod c22;
@@ -22,6 +23,7 @@ pub fn dispatch(p: &str, ctx: &Ctx) -> Option<Report> {
         "C16" => c16::run(ctx),
         "C17" => c17::run(ctx),
         "C18" => c18::run(ctx),
+        "C19" => c19::run(ctx),
         "C20" => c20::run(ctx),
         "C21" => c21::run(ctx),
         "C22" => c22::run(ctx),
